@@ -149,7 +149,11 @@ decoder(
     ["C01", "C03", "C12"],
     collector="output",
     types={"output": "list[Node]", "children": "list[Node]"},
-    each={"label": "node.obfuscation in ('', 'windows.dotpath')", "type": "node.type in ('windows.device.path', 'windows.unc.path', 'windows.path')"},
+    each={"label": "node.obfuscation in ('', 'windows.dotpath')", "type": "node.type in ('windows.device.path', 'windows.unc.path', 'windows.path')",
+          # the file-name child is the LAST len(filename) bytes of the normalised value (C12); that those bytes are its value, and the host children, are
+          # compared by the bounded Windows-path oracle (the text equality needs the position of the last split piece through ntpath.normpath's opaque result)
+          "file-name-child-ends-the-value": "forall(range(nchildren(node)), lambda k: (lambda c: implies(c.type not in ('network.ip', 'network.domain'), "
+                                            "c.end == len(node.value) and c.end - c.start == len(c.value)))(child_at(node, k)))"},
     # a device path starts with two separators and a '.' or '?': the first two pieces are empty and the third is not
     asserts={"path_type = 'windows.device.path'": {"device-prefix-occupies-a-segment": "implies(len(segments) >= 3, len(segments[2]) >= 1)"}},
 )
@@ -174,5 +178,7 @@ decoder(
     ["C01", "C03", "C13"],
     collector="out",
     types={"out": "list[Node]"},
-    each={**T("powershell.bytes", "")},
+    each={**T("powershell.bytes", ""),
+          # a decoded child spans the whole value of ITS OWN node (C13: the xor is applied to the bytes of the array it hangs under)
+          "children-span-the-value": "forall(range(nchildren(node)), lambda k: child_at(node, k).start == 0 and child_at(node, k).end == len(node.value))"},
 )
